@@ -18,7 +18,12 @@
      ex_workers_block_on_status                          examples (n=3, w=2)
 
      pool_orders_exact, pool_merge_orders_iff            (5) converse: exactly
-                                                         the [buffered] orders *)
+                                                         the [buffered] orders
+
+     pool_quiescent, pool_quiescent_forever,
+     pool_terminal_all_finished                          (6) main returns ([Done])
+                                                         only after the status
+                                                         updater has returned *)
 
 From Coq Require Import List Arith Lia Bool Permutation.
 From CPF Require Import Scan.Pool.
@@ -106,7 +111,7 @@ Section Facts.
     rewrite !in_app_iff in Hin.
     destruct Hin as [Hin | [Hin | [Hin | Hin]]].
     - destruct s as [m q fc ws a p r st co mg sk]. simpl in Hin.
-      destruct m as [[|f rest]| | | | |]; simpl in Hin.
+      destruct m as [[|f rest]| | | | | |]; simpl in Hin.
       + destruct Hin as [<-|[]]. constructor.
       + destruct (length q <? n) eqn:Hlt; simpl in Hin; [|contradiction].
         destruct Hin as [<-|[]]. constructor. apply Nat.ltb_lt; assumption.
@@ -117,6 +122,8 @@ Section Facts.
         * destruct (rclosed_c co) eqn:Hc; simpl in Hin; [|contradiction].
           destruct Hin as [<-|[]]. constructor. assumption.
         * destruct Hin as [<-|[]]. constructor.
+      + destruct st; simpl in Hin; try contradiction.
+        destruct Hin as [<-|[]]. constructor.
       + contradiction.
     - unfold worker_steps in Hin. apply in_flat_map in Hin.
       destruct Hin as [[[l1 x] l2] [Hsp Hin]].
@@ -176,7 +183,7 @@ Section Facts.
   Proof.
     intros s s' Hstep. unfold Pool.enabled_steps. rewrite !in_app_iff.
     destruct Hstep; ltb_true.
-    1-7: left; simpl;
+    1-8: left; simpl;
       repeat match goal with H : _ = true |- _ => rewrite H end;
       simpl; auto.
     1-10: right; left; unfold worker_steps; apply in_flat_map;
@@ -328,12 +335,16 @@ Section Facts.
     inv_exited_fq : existsb is_exited (wk s) = true -> fq s = [] /\ fclosed s = true;
     (* progress items: at most one per result already sent *)
     inv_pq : pq s + count_sp (wk s) <= length (rq s) + length (merged s);
-    (* main leaves the collection loop only on closed-and-empty *)
+    (* main leaves the collection loop only on closed-and-empty (and
+       resultChan stays closed and empty while main waits in [Join]) *)
     inv_done : main s = Done -> rclosed s = true /\ rq s = [];
+    inv_join : main s = Join -> rclosed s = true /\ rq s = [];
     (* no status item without a file *)
     inv_nofiles : files = [] -> sq s = 0;
     (* the status updater only returns after statusChan was closed *)
-    inv_gexited : status s = GExited -> sclosed s = true
+    inv_gexited : status s = GExited -> sclosed s = true;
+    (* main returns only after the status updater has returned *)
+    inv_quiet : main s = Done -> status s = GExited
   }.
 
   Ltac norm :=
@@ -373,7 +384,7 @@ Section Facts.
   Lemma inv_step : forall s s', step s s' -> pool_inv s -> pool_inv s'.
   Proof.
     intros s s' Hstep Hinv.
-    destruct Hinv as [Hlen Hsq Hcons Hrd Hsk Hfc Hst Hco Hce Hef Hpq Hdn Hnf Hge].
+    destruct Hinv as [Hlen Hsq Hcons Hrd Hsk Hfc Hst Hco Hce Hef Hpq Hdn Hjn Hnf Hge Hqt].
     constructor.
     - destruct Hstep; norm; lia.
     - destruct Hstep; norm; lia.
@@ -392,9 +403,18 @@ Section Facts.
         intros Hx; try (split; reflexivity);
         try (apply Hef in Hx; destruct Hx as [Hx1 Hx2]; split; congruence).
     - destruct Hstep; norm; lia.
-    - destruct Hstep; norm; try assumption;
+    - (* inv_done *)
+      destruct Hstep; norm; try assumption;
         intros Hx; try discriminate;
+        try (destruct (Hjn eq_refl) as [Hd1 Hd2]; split; assumption);
         try (destruct (Hdn Hx) as [Hd1 Hd2];
+             try (apply Hce in Hd1; rewrite ?andb_false_r in Hd1; discriminate);
+             split; auto; fail);
+        split; auto.
+    - (* inv_join *)
+      destruct Hstep; norm; try assumption;
+        intros Hx; try discriminate;
+        try (destruct (Hjn Hx) as [Hd1 Hd2];
              try (apply Hce in Hd1; rewrite ?andb_false_r in Hd1; discriminate);
              split; auto; fail);
         split; auto.
@@ -404,6 +424,11 @@ Section Facts.
         repeat (rewrite app_length in Hcons || (progress simpl in Hcons)); lia.
     - destruct Hstep; norm; try assumption;
         try (destruct co; simpl in *; intuition congruence); intuition congruence.
+    - (* inv_quiet *)
+      destruct Hstep; norm; try assumption;
+        intros Hx; try discriminate; try reflexivity;
+        try (apply Hqt; assumption);
+        specialize (Hqt Hx); discriminate.
   Qed.
 
   Lemma inv_star : forall s s', star s s' -> pool_inv s -> pool_inv s'.
@@ -421,7 +446,7 @@ Section Facts.
     length (rest_of (main s)) + length (fq s) + length (held (wk s))
     + length (rq s) + length (merged s) + length (skipped s) = n.
   Proof.
-    intros s Hinv. destruct Hinv as [_ _ Hcons _ _ _ _ _ _ _ _ _ _ _].
+    intros s Hinv. destruct Hinv as [_ _ Hcons _ _ _ _ _ _ _ _ _ _ _ _ _].
     apply Permutation_length in Hcons. unfold all_files in Hcons.
     rewrite !app_length in Hcons. lia.
   Qed.
@@ -492,10 +517,10 @@ Section Facts.
   Proof.
     intros s Hinv Hnd.
     pose proof (inv_lengths Hinv) as Hl. pose proof (inv_pq Hinv) as Hp.
-    destruct Hinv as [Hlen Hsq Hcons Hrd Hsk Hfc Hst Hco Hce Hef _ Hdn Hnf Hge].
+    destruct Hinv as [Hlen Hsq Hcons Hrd Hsk Hfc Hst Hco Hce Hef _ Hdn Hjn Hnf Hge Hqt].
     destruct s as [m q fc ws a p r st co mg sk].
     unfold rclosed, sclosed in *. simpl in *.
-    destruct m as [[|f rest]| | | | |]; simpl in *.
+    destruct m as [[|f rest]| | | | | |]; simpl in *.
     - eexists. apply step_m_sent_all.
     - eexists. apply step_m_send. lia.
     - eexists. apply step_m_close.
@@ -535,6 +560,19 @@ Section Facts.
       + eexists. apply step_w_send_result. simpl. lia.
       + eexists. apply step_w_send_progress. lia.
       + discriminate.
+    - (* Join: main waits for the status updater.  resultChan is closed, so
+         the closer is past [wg.Wait()]: it performs its remaining closes, and
+         once statusChan is closed the updater drains it and returns *)
+      destruct (Hjn eq_refl) as [Hrc Hrq].
+      destruct st.
+      + exfalso. destruct Hst as [Hst1 _]. specialize (Hst1 eq_refl). discriminate.
+      + destruct co; simpl in Hrc; try discriminate.
+        * eexists. apply step_c_close_status.
+        * eexists. apply step_c_close_progress.
+        * destruct a as [|a].
+          -- eexists. apply step_g_exit_status. reflexivity.
+          -- eexists. apply step_g_status.
+      + eexists. apply step_m_join.
     - exfalso. apply Hnd. reflexivity.
   Qed.
 
@@ -550,19 +588,13 @@ Section Facts.
          [rewrite Hm; discriminate | exfalso; eapply Hterm; eassumption]). }
     pose proof (inv_done Hinv Hd) as [Hrc Hrq].
     pose proof (inv_closed_exited Hinv Hrc) as Hall.
-    pose proof (inv_status Hinv) as Hst.
+    pose proof (inv_quiet Hinv Hd) as Hg.
     destruct s as [m q fc ws a p r st co mg sk].
     unfold rclosed in *. simpl in *. subst m. simpl in *.
     assert (Hco : co = CFired).
     { destruct co; simpl in Hrc; try discriminate; try reflexivity;
         exfalso; eapply Hterm; constructor. }
     subst co.
-    assert (Hg : st = GExited).
-    { destruct st; try reflexivity.
-      - destruct Hst as [Hst1 _]. specialize (Hst1 eq_refl). discriminate.
-      - exfalso. destruct a as [|a].
-        + eapply Hterm. apply step_g_exit_status. reflexivity.
-        + eapply Hterm. apply step_g_status. }
     auto.
   Qed.
 
@@ -760,8 +792,8 @@ Section Main.
   Theorem pool_step_wf : forall s, Acc (fun s2 s1 => step s1 s2) s.
   Proof. apply step_wf. Qed.
 
-  (* explicit bound: 14 n + w + 13 steps *)
-  Theorem pool_measure_init : measure (init files w) = 14 * n + w + 13.
+  (* explicit bound: 14 n + w + 14 steps *)
+  Theorem pool_measure_init : measure (init files w) = 14 * n + w + 14.
   Proof.
     unfold measure, init, fweight. simpl.
     assert (Hs : forall k, list_sum (map wweight (repeat Recv k)) = k).
@@ -1126,7 +1158,7 @@ Section Orders.
 
   Lemma run_collect : forall r ws st mg sk,
     star (St Collect [] true ws 0 0 r st CFired mg sk)
-         (St Done [] true ws 0 0 [] st CFired (mg ++ r) sk).
+         (St Join [] true ws 0 0 [] st CFired (mg ++ r) sk).
   Proof.
     induction r as [|f r IH]; intros ws st mg sk.
     - rewrite app_nil_r. one step_m_done. apply star_refl.
@@ -1173,7 +1205,7 @@ Section Orders.
       one step_c_wait; [apply forallb_exited_repeat|].
       one step_c_close_status. one step_c_close_progress.
       eapply star_trans; [apply run_collect|]. simpl.
-      one step_g_exit_status. apply star_refl.
+      one step_g_exit_status. one step_m_join. apply star_refl.
     - split; [|split; reflexivity].
       intros s' Hstep. inversion Hstep; subst;
         match goal with
@@ -1579,10 +1611,10 @@ Section Example.
   Qed.
 
   (* scheduler "always the first enabled action": main first, then worker 1,
-     worker 2, status updater, closer.  57 = measure (init ex_files 2) steps
+     worker 2, status updater, closer.  58 = measure (init ex_files 2) steps
      always suffice. *)
   Definition ex_final_1 : state :=
-    run_sched 3 2 ex_readable (repeat 0 57) (init ex_files 2).
+    run_sched 3 2 ex_readable (repeat 0 58) (init ex_files 2).
 
   Example ex_run_1 :
     reachable ex_files 2 ex_readable ex_final_1 /\
@@ -1595,7 +1627,7 @@ Section Example.
 
   (* a different scheduler (choice i at step i) delivers the other order *)
   Definition ex_final_2 : state :=
-    run_sched 3 2 ex_readable (seq 0 57) (init ex_files 2).
+    run_sched 3 2 ex_readable (seq 0 58) (init ex_files 2).
 
   Example ex_run_2 :
     reachable ex_files 2 ex_readable ex_final_2 /\
@@ -1671,6 +1703,8 @@ Section Example.
     eapply star_step; [apply step_m_done; reflexivity|].
     eapply star_step; [apply step_g_progress|].
     eapply star_step; [apply step_g_exit_status; reflexivity|].
+    (* the status updater has returned: main passes [<-statusDone] and returns *)
+    eapply star_step; [apply step_m_join|].
     apply star_refl.
   Qed.
 
@@ -1697,3 +1731,64 @@ Print Assumptions ex_run_1.
 Print Assumptions ex_run_2.
 Print Assumptions ex_run_explicit.
 Print Assumptions ex_workers_block_on_status.
+
+(* ====================================================================== *)
+(* 6. Quiescence: [Initialize] returns only after the status updater has   *)
+(*    returned (main waits for it in [Join]), and nothing the caller can   *)
+(*    observe changes afterwards.                                          *)
+(* ====================================================================== *)
+
+(* after Initialize returns, the progress display is silent *)
+Theorem pool_quiescent : forall files w readable s,
+  reachable files w readable s -> main s = Done -> status s = GExited.
+Proof.
+  intros files w readable s Hr Hd. exact (inv_quiet (pool_invariant Hr) Hd).
+Qed.
+
+(* no step taken after the return touches main's program counter or the
+   merged results (only [step_m_collect] changes [merged], and that is a step
+   of main) *)
+Lemma done_step_stable : forall n w readable s s',
+  step n w readable s s' -> main s = Done ->
+  main s' = Done /\ merged s' = merged s.
+Proof.
+  intros n w readable s s' Hstep Hd.
+  destruct Hstep; simpl in *; try discriminate; split; (assumption || reflexivity).
+Qed.
+
+Lemma done_star_stable : forall n w readable s s',
+  star n w readable s s' -> main s = Done ->
+  main s' = Done /\ merged s' = merged s.
+Proof.
+  intros n w readable s s' Hstar.
+  induction Hstar as [s | s1 s2 s3 Hstep Hstar IH]; intros Hd.
+  - split; [assumption | reflexivity].
+  - destruct (done_step_stable Hstep Hd) as [Hd2 Hm2].
+    destruct (IH Hd2) as [Hd3 Hm3].
+    split; [assumption | congruence].
+Qed.
+
+(* nothing the caller can observe changes after the return *)
+Theorem pool_quiescent_forever : forall files w readable s s',
+  reachable files w readable s -> main s = Done ->
+  star (length files) w readable s s' ->
+  status s' = GExited /\ merged s' = merged s /\ main s' = Done.
+Proof.
+  intros files w readable s s' Hr Hd Hstar.
+  destruct (done_star_stable Hstar Hd) as [Hd' Hm'].
+  split; [|split; assumption].
+  apply pool_quiescent with (files := files) (w := w) (readable := readable);
+    [|assumption].
+  unfold reachable in *. eapply star_trans; eassumption.
+Qed.
+
+(* a reachable state without successor: main, the status updater and the
+   closer have all finished (corollary of pool_terminal_shape) *)
+Theorem pool_terminal_all_finished : forall files w readable s,
+  reachable files w readable s -> terminal (length files) w readable s ->
+  main s = Done /\ status s = GExited /\ closer s = CFired.
+Proof.
+  intros files w readable s Hr Ht.
+  destruct (pool_terminal_shape Hr Ht) as [Hd [Hc [Hg _]]].
+  split; [|split]; assumption.
+Qed.
